@@ -2,12 +2,12 @@ package main
 
 import (
 	"fmt"
-	"os"
-	"regexp"
-	"strconv"
 	"go/token"
 	"go/types"
+	"os"
+	"regexp"
 	"sort"
+	"strconv"
 	"strings"
 
 	"golang.org/x/tools/go/ssa"
@@ -15,14 +15,14 @@ import (
 
 // Val is a symbolic value: an SMT term with its sort, plus static side information.
 type Val struct {
-	T    string // SMT term
-	S    string // sort
-	Tup  []Val  // tuple components (calls returning several results, Next, Select, comma-ok)
-	Addr Addr   // statically resolved address (for Alloc / FieldAddr / IndexAddr results)
-	Clo  *Closure
-	Prov *Prov
+	T        string // SMT term
+	S        string // sort
+	Tup      []Val  // tuple components (calls returning several results, Next, Select, comma-ok)
+	Addr     Addr   // statically resolved address (for Alloc / FieldAddr / IndexAddr results)
+	Clo      *Closure
+	Prov     *Prov
 	FreshArr bool // slice whose backing array was allocated in this run (never an entry-state array)
-	ArrBack  Addr  // slice made by slicing an addressable array in full: address of that array
+	ArrBack  Addr // slice made by slicing an addressable array in full: address of that array
 	ArrLen   int64
 }
 
@@ -35,9 +35,9 @@ type Closure struct {
 
 // Prov records that a value was loaded from a lock-guarded field.
 type Prov struct {
-	MuAddr string // term for the mutex address
-	Field  string
-	MuText string
+	MuAddr    string // term for the mutex address
+	Field     string
+	MuText    string
 	Unguarded bool // loaded from a field of a shared structure that has no guard
 	Replaced  bool // loaded from a guarded field whose object is immutable once published
 }
@@ -47,8 +47,8 @@ type Addr interface{ addr() }
 
 type CellAddr struct{ Key cellKey }
 type ObjAddr struct {
-	Ref   string
-	Elem  types.Type
+	Ref    string
+	Elem   types.Type
 	Fresh  bool // allocated in this run
 	NonNil bool // known non-nil (fresh objects, globals)
 }
@@ -96,10 +96,13 @@ type State struct {
 	cells  map[cellKey]Val
 	heaps  map[string]string
 	defers []*deferRec
+	// spawned: what the goroutines started on the way to this state may write (shared from here on); immutable,
+	// replaced by a new set when it grows
+	spawned *WriteSet
 }
 
 func (s *State) clone() *State {
-	n := &State{reach: s.reach, cells: make(map[cellKey]Val, len(s.cells)), heaps: make(map[string]string, len(s.heaps))}
+	n := &State{reach: s.reach, cells: make(map[cellKey]Val, len(s.cells)), heaps: make(map[string]string, len(s.heaps)), spawned: s.spawned}
 	for k, v := range s.cells {
 		n.cells[k] = v
 	}
@@ -160,13 +163,17 @@ type Obligation struct {
 	Pos    token.Position
 	Desc   string
 	// results
-	Status string // discharged / refuted / unknown
-	Solver string
-	Ms     int64
-	Model  string
-	Output string
-	Static bool // decided by the engine without a solver
+	Status    string // discharged / refuted / unknown
+	Solver    string
+	Ms        int64
+	Model     string
+	Output    string
+	Static    bool // decided by the engine without a solver
 	splitDone bool
+	// cover obligations after a call under contract: the state just before the call (an infeasible continuation
+	// is only a vacuity alarm when the call itself was reachable)
+	PrePrefix int
+	PreReach  string
 }
 
 type WriteSet struct {
@@ -181,47 +188,47 @@ func newWriteSet() *WriteSet {
 
 // FuncRun is the verification run of one function.
 type FuncRun struct {
-	eng      *Engine
-	w        *World
-	fn       *ssa.Function
-	lines    []string
-	nfresh   int
-	nframes  int
-	obls     []*Obligation
-	scout    int
-	curFrame *Frame
-	defTerm  map[string]string // names introduced by def/defAlways/constFor and the terms they abbreviate
-	curWriteRoot string        // root reference of the object being written (when known)
-	realQuot map[string][2]string // real-valued definitions known to be an integer over a positive constant
-	curPos   token.Pos
-	wsStack  []*WriteSet
-	names    map[string]int // obligation base name -> count
-	mutexes  []mutexRef
-	errors   []string
-	assumed  map[string]bool // assumptions used (stub names etc.)
-	topFrame *Frame
-	allWrites *WriteSet
-	inlineStack []*ssa.Function
-	allocTop string
-	scoutingHead *ssa.BasicBlock
-	backStates []*State
-	assumedOrder []string
-	pendingBack  []pendingBackEdge
-	constGlobals map[string]string
-	curInstr string
-	addrLog    map[string][]addrWrite
-	cellLog    map[cellKey][]Val
-	spawned *WriteSet
-	sharedAtomics bool
-	stats map[string]int
-	callsiteSeen map[string]bool
-	callOrdGlobal map[string]int
+	countersTouched map[string]bool // ghost counters (calls:X, sends) advanced in this run
+	eng             *Engine
+	w               *World
+	fn              *ssa.Function
+	lines           []string
+	nfresh          int
+	nframes         int
+	obls            []*Obligation
+	scout           int
+	curFrame        *Frame
+	defTerm         map[string]string    // names introduced by def/defAlways/constFor and the terms they abbreviate
+	curWriteRoot    string               // root reference of the object being written (when known)
+	realQuot        map[string][2]string // real-valued definitions known to be an integer over a positive constant
+	curPos          token.Pos
+	wsStack         []*WriteSet
+	names           map[string]int // obligation base name -> count
+	mutexes         []mutexRef
+	errors          []string
+	assumed         map[string]bool // assumptions used (stub names etc.)
+	topFrame        *Frame
+	allWrites       *WriteSet
+	inlineStack     []*ssa.Function
+	allocTop        string
+	scoutingHead    *ssa.BasicBlock
+	backStates      []*State
+	assumedOrder    []string
+	pendingBack     []pendingBackEdge
+	constGlobals    map[string]string
+	curInstr        string
+	addrLog         map[string][]addrWrite
+	cellLog         map[cellKey][]Val
+	sharedAtomics   bool
+	stats           map[string]int
+	callsiteSeen    map[string]bool
+	callOrdGlobal   map[string]int
 	freshHeapWrites map[string]bool
-	oldHeapWrites map[string]bool
-	freshRefs map[string]bool
-	curWriteFresh bool
-	noAssume bool
-	ordCache map[*ssa.Function]map[*ssa.CallCommon]int
+	oldHeapWrites   map[string]bool
+	freshRefs       map[string]bool
+	curWriteFresh   bool
+	noAssume        bool
+	ordCache        map[*ssa.Function]map[*ssa.CallCommon]int
 }
 
 type mutexRef struct {
@@ -528,10 +535,10 @@ func (fr *FuncRun) heapHavoc(st *State, h string) {
 	}
 }
 
-func sel(a, i string) string        { return "(select " + a + " " + i + ")" }
-func sto(a, i, v string) string     { return "(store " + a + " " + i + " " + v + ")" }
-func and(xs ...string) string       { return nary("and", "true", xs) }
-func or(xs ...string) string        { return nary("or", "false", xs) }
+func sel(a, i string) string    { return "(select " + a + " " + i + ")" }
+func sto(a, i, v string) string { return "(store " + a + " " + i + " " + v + ")" }
+func and(xs ...string) string   { return nary("and", "true", xs) }
+func or(xs ...string) string    { return nary("or", "false", xs) }
 func not(x string) string {
 	if x == "true" {
 		return "false"
@@ -547,7 +554,7 @@ func implies(a, b string) string {
 	}
 	return "(=> " + a + " " + b + ")"
 }
-func eq(a, b string) string  { return "(= " + a + " " + b + ")" }
+func eq(a, b string) string { return "(= " + a + " " + b + ")" }
 func ite(c, a, b string) string {
 	if a == b {
 		return a
@@ -577,6 +584,9 @@ func (fr *FuncRun) merge(ins []*State) *State {
 		return ins[0].clone()
 	}
 	out := &State{cells: map[cellKey]Val{}, heaps: map[string]string{}}
+	for _, s := range ins {
+		out.spawned = unionWS(out.spawned, s.spawned)
+	}
 	reaches := make([]string, len(ins))
 	for i, s := range ins {
 		reaches[i] = s.reach
@@ -766,4 +776,27 @@ func (fr *FuncRun) expandDefs(term string, marker int) string {
 		}
 	}
 	return term
+}
+
+// unionWS: union of two immutable write sets (nil = empty); returns one of the arguments when possible.
+func unionWS(a, b *WriteSet) *WriteSet {
+	if b == nil || a == b {
+		return a
+	}
+	if a == nil {
+		return b
+	}
+	n := newWriteSet()
+	for _, w := range []*WriteSet{a, b} {
+		for h := range w.heaps {
+			n.heaps[h] = true
+		}
+		for h := range w.oldHeaps {
+			n.oldHeaps[h] = true
+		}
+		for c := range w.cells {
+			n.cells[c] = true
+		}
+	}
+	return n
 }
